@@ -288,17 +288,25 @@ example : offBoundary [(0, 0), (4, 0), (0, 3)] (1, 1) ∧ polyNear [(0, 0), (4, 
 
 /-! ## sequences of operations -/
 
-/-- **`ops_equivariant_spec`** — any list of `move_to(t)` / `rotate_to(θ)` / `copy()` / save-restore,
-every class: the region described by the parameters the code ends up with contains `q` iff the
-*original* region contains `q` pulled back through the rigid motions the property prescribes
-(translation by target − current centre; rotation about the current centre by new − current angle);
-the reported centre is the prescribed centre (the last `move_to` target) and the stored angle the
-prescribed angle.  `OpsOk`: rotations are unit vectors and a polygon is not asked to turn by a
-non-zero angle inside `rotate_to`'s `1e-9` skip window; `OffB`: polygons are compared at points whose
-pre-image lies on no edge. -/
+/-- **`ops_equivariant_spec`** — any list of `move_to(t)` / `rotate_to(θ)` / `copy()` / save-restore
+**and redefinitions of the region object** (`define new` = `reset()` + `update_limits` / `set_range` /
+`move_to`+radii / `add_point…`; `add_point`, `replace_last_point`, `remove_point` on a defined polygon),
+every class: the region described by the parameters the code ends up with contains `q` iff the region
+*as last defined* — `(Spec.run roi ops).roi`: the original region, or after a redefinition exactly the
+newly defined region with the angle the class documents (rectangle / ellipse: the absolute position
+angle they keep; polygon: angle 0 after `reset()`, the kept angle after a vertex edit) — contains `q`
+pulled back through the rigid motions prescribed *since* (translation by target − current centre;
+rotation about the current centre by new − current angle); the reported centre is the prescribed
+centre and the stored angle the prescribed angle.  In particular nothing of the state before a
+redefinition (angle bookkeeping, centres) may influence what a later `rotate_to` / `move_to` does.
+`OpsOk`: rotations are unit vectors, a polygon is not asked to turn by a non-zero angle inside
+`rotate_to`'s `1e-9` skip window, a redefinition is of the object's own class and defined, `remove_point`
+leaves a vertex, and no in-place edit of the original after `copy()` (F24); `OffB`: polygons are
+compared at points whose pre-image lies on no edge. -/
 theorem ops_equivariant_spec (roi : Roi) (ops : List Op) (q : Pt) (hdef : roi.defined = true)
     (hu : (Spec.orient roi).1 * (Spec.orient roi).1 + (Spec.orient roi).2 * (Spec.orient roi).2 = 1)
-    (hok : OpsOk roi ops) (hoff : OffB roi (Spec.pullback (Spec.run roi ops).motions q)) :
+    (hok : OpsOk roi ops)
+    (hoff : OffB (Spec.run roi ops).roi (Spec.pullback (Spec.run roi ops).motions q)) :
     Spec.contains (Impl.applyOps roi ops) q = Spec.containsAfter roi ops q ∧
     (Impl.applyOps roi ops).center = (Spec.run roi ops).ctr ∧
     Spec.orient (Impl.applyOps roi ops) = ((Spec.run roi ops).c, (Spec.run roi ops).s) :=
@@ -307,17 +315,74 @@ theorem ops_equivariant_spec (roi : Roi) (ops : List Op) (q : Pt) (hdef : roi.de
 /-- **`ops_equivariant`** — the same for the coded `contains()` of the final region, off its band. -/
 theorem ops_equivariant (roi : Roi) (ops : List Op) (q : Pt) (ε : Rat) (hdef : roi.defined = true)
     (hu : (Spec.orient roi).1 * (Spec.orient roi).1 + (Spec.orient roi).2 * (Spec.orient roi).2 = 1)
-    (hok : OpsOk roi ops) (hoff : OffB roi (Spec.pullback (Spec.run roi ops).motions q))
+    (hok : OpsOk roi ops)
+    (hoff : OffB (Spec.run roi ops).roi (Spec.pullback (Spec.run roi ops).motions q))
     (hfin : ImplHyp (Impl.applyOps roi ops) ε) (hfar : (Impl.applyOps roi ops).near q ε = false) :
     Impl.contains (Impl.applyOps roi ops) q = Spec.containsAfter roi ops q := by
   rw [impl_eq_spec _ q ε hfin hfar]
   exact (ops_spec roi ops q hdef hu hok hoff).1
+
+/-- **`ops_base_region`** — what `(Spec.run roi ops).roi` is: without redefinitions the original region
+(the round-2 statement: containment is pulled back to the *original* region); after a last `define new`
+followed by transforms only, the region `Spec.step` builds from `new` alone, the object's class and the
+prescribed angle — independent of every vertex / limit the object had before. -/
+theorem ops_base_region (roi : Roi) (pre post : List Op) (new : Roi)
+    (h : ∀ op ∈ post, Op.isTransform op = true) :
+    (Spec.run roi post).roi = roi ∧
+    (Spec.run roi (pre ++ .define new :: post)).roi = (Spec.step (Spec.run roi pre) (.define new)).roi :=
+  ⟨run_roi_of_transforms roi post h, run_define_last roi pre post new h⟩
 
 -- the hypotheses are satisfiable by non-trivial sequences
 example : OpsOk (.poly { vs := [(0, 0), (4, 0), (0, 3)] }) [.move (5, 5), .rotate (3/5) (4/5), .copy] :=
   ⟨trivial, ⟨by norm_num, Or.inl (by decide +kernel)⟩, trivial, trivial⟩
 example : OpsOk (.rect ⟨0, 4, 0, 2, 1, 0⟩) [.rotate (3/5) (4/5), .move (1, 1), .roundtrip, .rotate 0 (-1)] :=
   ⟨⟨by norm_num, trivial⟩, trivial, trivial, ⟨by norm_num, trivial⟩, trivial⟩
+-- transform → reset → define → transform, polygon and rectangle
+example : OpsOk (.poly { vs := [(0, 0), (4, 0), (0, 3)], c := 0, s := 1 })
+    [.define (.poly { vs := [(10, 10), (16, 10), (16, 12), (10, 12)] }), .addPoint (9, 11),
+     .removePoint (16, 12), .rotate 0 1] := by
+  refine ⟨⟨trivial, by decide +kernel⟩, trivial, ?_, ⟨by norm_num, ?_⟩, trivial⟩
+  · show 2 ≤ _; decide +kernel
+  · exact Or.inl (by decide +kernel)
+example : OpsOk (.rect ⟨0, 4, 0, 2, 1, 0⟩) [.rotate (3/5) (4/5), .define (.rect ⟨7, 1, 3, 5, 1, 0⟩), .move (1, 1)] :=
+  ⟨⟨by norm_num, trivial⟩, ⟨trivial, rfl⟩, trivial, trivial⟩
+
+/-- **After a redefinition the rectangle keeps its absolute angle, the polygon starts at 0** — the two
+class conventions as coded, on concrete sequences (`decide`d): a rectangle turned to `atan2(4,3)`,
+reset and given new (unsorted) limits is the new `6 × 2` rectangle at that same angle; a polygon turned
+by a quarter, reset, redrawn and turned *to* a quarter is the drawn polygon turned by exactly a quarter
+about its centre. -/
+theorem redefine_conventions :
+    Impl.applyOps (.rect ⟨0, 4, 0, 2, 1, 0⟩) [.rotate (3/5) (4/5), .define (.rect ⟨7, 1, 3, 5, 1, 0⟩)] =
+      .rect ⟨1, 7, 3, 5, 3/5, 4/5⟩ ∧
+    Impl.applyOps (.poly { vs := [(0, 0), (4, 0), (0, 3)] })
+      [.rotate 0 1, .define (.poly { vs := [(10, 10), (16, 10), (16, 12), (10, 12)] }), .rotate 0 1] =
+      .poly { vs := [(14, 8), (14, 14), (12, 14), (12, 8)], c := 0, s := 1 } := by
+  decide +kernel
+
+/-- **Witness for the stale-angle defect (seeded C08c)** on the variant model in which
+`VertexROIBase.reset()` keeps `theta` "like the rectangle's reset": after `rotate_to(π/2)` → `reset()` →
+a `6 × 2` rectangle drawn with `add_point` → `rotate_to(π/2)` the variant leaves the polygon un-rotated
+(relative turn `π/2 − π/2 = 0`), so the point `(13, 8.5)` — inside the drawn rectangle turned by a
+quarter about its centre `(13, 11)` — is not contained and `(10.5, 11)` wrongly is; the specification
+(and the code as it exists) has the opposite answers. -/
+theorem stale_theta_witness :
+    let roi : Roi := .poly { vs := [(0, 0), (4, 0), (0, 3)] }
+    let ops : List Op := [.rotate 0 1, .define (.poly { vs := [(10, 10), (16, 10), (16, 12), (10, 12)] }), .rotate 0 1]
+    Spec.containsAfter roi ops (13, 17/2) = true ∧ Spec.containsAfter roi ops (21/2, 11) = false ∧
+    Impl.contains (Impl.applyOps roi ops) (13, 17/2) = true ∧
+    Impl.contains (Impl.applyOps roi ops) (21/2, 11) = false ∧
+    Impl.contains (Variant.applyOps roi ops) (13, 17/2) = false ∧
+    Impl.contains (Variant.applyOps roi ops) (21/2, 11) = true := by
+  decide +kernel
+
+/-- **Witness for F24** (`copy()` is `copy.copy`: the vertex *lists* are shared): `c = roi.copy();
+roi.add_point(9, 9)` — the copy, which must still be the triangle, has become the quadrilateral. -/
+theorem copy_shares_vertices_witness :
+    let roi : Roi := .poly { vs := [(0, 0), (4, 0), (0, 3)] }
+    Spec.containsAfter roi [.forkAdd (9, 9)] (3, 4) = false ∧
+    Impl.contains (Impl.applyOps roi [.forkAdd (9, 9)]) (3, 4) = true := by
+  decide +kernel
 
 /-! ## copy, save / restore, array arrangement, chunking -/
 
